@@ -11,6 +11,7 @@ import FlVerif.Lemmas.CodeDiscrete
 import FlVerif.Lemmas.CodeDiscreteCreate
 import FlVerif.Lemmas.CodeDiscreteLinear
 import FlVerif.Lemmas.CodeDiscreteEngine
+import FlVerif.Lemmas.CodeRaisedTerm
 
 /-! # C03 — Membership functions match their documented definitions
 
@@ -603,6 +604,39 @@ theorem limits (t : Term ℝ) (hv : t.Valid) :
 
 /-- the regenerated `is_monotonic()` flags are the documented ones -/
 theorem isMonotonic_table : Gen.isMonotonicTable = Spec.isMonotonicTable := by decide
+
+/-- **Tie A (code → table).**  `Gen.isMonotonicTable` is regenerated by calling `is_monotonic()` on an instance of every
+    shape class; `Gen.Code.<T>_is_monotonic` is the *source* of the method the class `T` uses - its own override or the
+    inherited `Term.is_monotonic`, looked up through the class at translation time - translated by `fv/pylean.py`.  The
+    table is, class by class, what the translated methods return (so it also says which classes override the method). -/
+theorem code_isMonotonic :
+    Gen.isMonotonicTable.map (fun p => (p.1, some p.2)) =
+      [("Arc", Py.retOf (Gen.Code.Arc_is_monotonic.run {}) (·.ret)),
+       ("Bell", Py.retOf (Gen.Code.Bell_is_monotonic.run {}) (·.ret)),
+       ("Binary", Py.retOf (Gen.Code.Binary_is_monotonic.run {}) (·.ret)),
+       ("Concave", Py.retOf (Gen.Code.Concave_is_monotonic.run {}) (·.ret)),
+       ("Cosine", Py.retOf (Gen.Code.Cosine_is_monotonic.run {}) (·.ret)),
+       ("Gaussian", Py.retOf (Gen.Code.Gaussian_is_monotonic.run {}) (·.ret)),
+       ("GaussianProduct", Py.retOf (Gen.Code.GaussianProduct_is_monotonic.run {}) (·.ret)),
+       ("PiShape", Py.retOf (Gen.Code.PiShape_is_monotonic.run {}) (·.ret)),
+       ("Ramp", Py.retOf (Gen.Code.Ramp_is_monotonic.run {}) (·.ret)),
+       ("Rectangle", Py.retOf (Gen.Code.Rectangle_is_monotonic.run {}) (·.ret)),
+       ("SemiEllipse", Py.retOf (Gen.Code.SemiEllipse_is_monotonic.run {}) (·.ret)),
+       ("Sigmoid", Py.retOf (Gen.Code.Sigmoid_is_monotonic.run {}) (·.ret)),
+       ("SigmoidDifference", Py.retOf (Gen.Code.SigmoidDifference_is_monotonic.run {}) (·.ret)),
+       ("SigmoidProduct", Py.retOf (Gen.Code.SigmoidProduct_is_monotonic.run {}) (·.ret)),
+       ("Spike", Py.retOf (Gen.Code.Spike_is_monotonic.run {}) (·.ret)),
+       ("SShape", Py.retOf (Gen.Code.SShape_is_monotonic.run {}) (·.ret)),
+       ("Trapezoid", Py.retOf (Gen.Code.Trapezoid_is_monotonic.run {}) (·.ret)),
+       ("Triangle", Py.retOf (Gen.Code.Triangle_is_monotonic.run {}) (·.ret)),
+       ("ZShape", Py.retOf (Gen.Code.ZShape_is_monotonic.run {}) (·.ret))] :=
+  Op.code_isMonotonic
+
+/-- `Term.__init__` as translated from the source: the constructor stores the name and the height it is given and does
+    not raise (every shape class calls it first; the models read `name` / `height` as the arguments) -/
+theorem code_termInit (name : String) (height : X Rat) (σ0 : Gen.Code.Term_init.S) :
+    ∃ σ, Gen.Code.Term_init.run name height σ0 = .ok σ ∧ σ.self_name = name ∧ σ.self_height = height :=
+  Op.code_termInit name height σ0
 
 /-- the table entry of a term's class is `Spec.isMonotonic` -/
 theorem isMonotonic_lookup (t : Term ℝ) (hnd : ∀ pts h, t ≠ .discrete pts h) (hnc : ∀ k, t ≠ .constant k) :
